@@ -40,6 +40,21 @@ def main():
     i, j = s.index(a) + len(a), s.index(b)
     s = s[:i] + "\n" + "\n".join(lines) + "\n" + s[j:]
     open(p, "w").write(s)
+    bp = os.path.join(HERE, "benign", "RESULTS.json")
+    if os.path.exists(bp) and "<!-- BENIGN-TABLE-BEGIN -->" in s:
+        br = json.load(open(bp))
+        desc = {m["id"]: m["what"] for m in json.load(open(os.path.join(HERE, "benign", "README.json")))}
+        bl = ["", "| variant | what changes | suite | checks run (exit codes other than 0) | verdict |", "|---|---|---|---|---|"]
+        for k, v in sorted(br.items()):
+            ck = v.get("checks", {})
+            bad = {p_: c["exit"] for p_, c in ck.items() if c["exit"] != 0}
+            note = ", ".join(f"{p_}: exit {e} ({'rare reach probe not hit at the reduced run count' if e == 3 else 'ALARM'})" for p_, e in sorted(bad.items())) or "-"
+            bl.append(f"| {k} | {desc.get(k, '')} | {'passes' if v.get('suite_passes') else ('not run' if 'suite_passes' not in v else 'FAILS')} | "
+                      f"{len(ck)} ({note}) | {'no alarm' if v.get('all_green') else '**ALARM**'} |")
+        a2, b2 = "<!-- BENIGN-TABLE-BEGIN -->", "<!-- BENIGN-TABLE-END -->"
+        i2, j2 = s.index(a2) + len(a2), s.index(b2)
+        s = s[:i2] + "\n" + "\n".join(bl) + "\n" + s[j2:]
+        open(p, "w").write(s)
     print("updated DESIGN.md")
 
 
